@@ -63,11 +63,7 @@ Proof. unfold grids. induction specs as [|s r IH]; simpl; [reflexivity|]. exact 
 
 Lemma folder_name_write (s : fit_spec) : folder_name (write_fit s) = fs_id s.
 Proof.
-  unfold folder_name, write_fit, spec_path. simpl.
-  replace (fs_prefix s ++ opt_list (fs_tag s) ++ [fs_name s; fs_id s])
-    with ((fs_prefix s ++ opt_list (fs_tag s) ++ [fs_name s]) ++ [fs_id s]).
-  - apply last_last.
-  - rewrite <- !app_assoc. reflexivity.
+  unfold folder_name, write_fit, spec_path. simpl. apply last_last.
 Qed.
 
 (* what C11 needs from the persistence of search and model (C07 / C08): the identifier recomputed
